@@ -53,6 +53,7 @@ void (*sched_on_wait_return)(int tid, struct env_wait *w, int n);
 long sched_max_points;
 int sched_signal_atomic = 1;
 int sched_fault_eintr;
+int sched_no_more_choices;
 long sched_points;
 
 /* ---------------------------------------------------------------- futex */
@@ -234,7 +235,7 @@ static void decide(int me)
 			}
 		}
 	}
-	if (n == 1) {
+	if (n == 1 || sched_no_more_choices) {
 		chosen = list[0];
 	} else {
 		snprintf(lbl, sizeof(lbl), "sched:T%d:%s", me, T[me].finished ? "fin" : opn[T[me].op]);
@@ -320,9 +321,22 @@ static void point(int op, void *obj, int target, const char *what)
 	T[me].op = OP_RUN;
 }
 
+/* harness-level hand-shakes stand for real application synchronisation (e.g. a mutex-protected "ready"
+ * flag): the setter calls sched_publish() after setting the flag, the waiter gets the matching acquire here,
+ * so that the race detector sees the happens-before edge an application would have */
+static pthread_mutex_t hb_mutex = PTHREAD_MUTEX_INITIALIZER;
+
+void sched_publish(void)
+{
+	pthread_mutex_lock(&hb_mutex);
+	pthread_mutex_unlock(&hb_mutex);
+}
+
 void sched_wait_flag(volatile int *flag)
 {
 	point(OP_FLAG, (void *)flag, 0, "wait-flag");
+	pthread_mutex_lock(&hb_mutex);
+	pthread_mutex_unlock(&hb_mutex);
 }
 
 void sched_yield_point(const char *what)
